@@ -283,7 +283,7 @@ impl Property for C14 {
         }
     }
     fn required_labels(&self, _tier: Tier) -> Vec<&'static str> {
-        vec!["nontrivial", "leaves>30", "leaf-outside-root-subtree", "duplicate-leaves", "leaf==root", "leaf-is-ancestor-of-leaf", "retained-modifier-term-with-record", "record-only-on-retained-modifier-root", "terms-pruned", "record-dropped", "leaves>255", "custom-modifier-roots", "name-longer-than-255-bytes"]
+        vec!["nontrivial", "leaves>30", "leaf-outside-root-subtree", "duplicate-leaves", "leaf==root", "leaf-is-ancestor-of-leaf", "retained-modifier-term-with-record", "record-only-on-retained-modifier-root", "terms-pruned", "record-dropped", "leaves>255", "custom-modifier-roots", "name-longer-than-255-bytes", "direct-parents>255", "depth>255"]
     }
     fn run_generated(&self, tier: Tier, seed: u64, n: u64, stats: &mut Stats) -> Option<(Value, Failure)> {
         run_typed(strategy(tier), seed, n, stats, check)
@@ -306,11 +306,28 @@ impl Property for C14 {
             }
             return Ok(r);
         }
+        if let Some(b) = case.get("shape") {
+            // ("fanin" | "deep", size, mult): the request root = HP:0000001, leaves = the lowest terms of a fixture
+            // with more than 255 direct parents / more than 255 levels
+            let v: (String, u32, u32) = serde_json::from_value(b.clone()).map_err(|e| e.to_string())?;
+            stats.cases += 1;
+            let facts = if v.0 == "fanin" { super::common::fanin_facts(v.1, v.2, 9) } else { super::common::deep_chain_facts(v.1, v.2, 9, 0) };
+            let m = Model::new(&facts);
+            // the terms without children, plus one inner term
+            let mut leaves: Vec<u32> = m.ids.iter().copied().filter(|t| m.children[m.i(*t)].is_empty() && m.anc[m.i(*t)].contains(&1)).take(3).collect();
+            leaves.push(118);
+            let c = Case { facts, root: 1, leaves, path: PathSel::Bin(3), custom_modifier: vec![] };
+            let r = check(&c, stats);
+            if r.is_ok() {
+                stats.label(if v.0 == "fanin" { "direct-parents>255" } else { "depth>255" });
+            }
+            return Ok(r);
+        }
         replay_typed::<Case, _>(case, stats, check)
     }
     fn isolated_plans(&self, tier: Tier, seed: u64) -> Vec<Value> {
         let mult = [7919u32, 104_729][(seed % 2) as usize];
-        let mut out = vec![json!({"big": (1500u32, mult, 40u32, 300u32)})];
+        let mut out = vec![json!({"big": (1500u32, mult, 40u32, 300u32)}), json!({"shape": ("fanin", 300u32, mult)}), json!({"shape": ("deep", 300u32, mult)})];
         if tier == Tier::Thorough {
             out.push(json!({"big": (6000u32, mult, 300u32, 1200u32)}));
         }
